@@ -3123,3 +3123,29 @@ Q(name="e2_sendstream_reset_legality", props=["C11"], func=r"streams/mod\.rs:\d+
   functions=["SendStream::reset"], pre=lambda c: "true", post=rsl_post, allowed_panics=r"attempt to compute",
   bounds="every state of the send map and of the stream: reset() reports ClosedStream exactly when the stream is not in the map any more or is already in ResetSent; in every other state - in particular DataSent with the FIN acknowledged but data still outstanding - it resets the stream, queues RESET_STREAM and reports success; map lookup, Send::reset, Vec::push opaque",
   replay=("streams_reset_after_fin_acked_native", lambda m: [dict(x=0)]))
+
+
+# ------------------------------------------------------------------ C03 / C12: the bookkeeping of un-ackable packets stays consistent (bounded tracking, no underflow on the ACK that covers them)
+def pss_post(c, p):
+    st = p.p.state
+    if p.p.outcome != "return":
+        return "true"
+    F = lambda n: "*_1.%d" % c.field("connection/spaces.rs", "PacketSpace", n)
+    tail0, tail1 = c.inp(F("unacked_non_ack_eliciting_tail"), BV64), c.ex.read_key(st, F("unacked_non_ack_eliciting_tail"), BV64).t
+    eliciting = c.inp("_3.%d" % c.field("connection/spaces.rs", "SentPacket", "ack_eliciting"), BOOL)
+    ins = p.called(r"SentPackets::insert$")
+    rem = p.called(r"SentPackets::remove$")
+    other = [x for x in st.calls if re.search(r"PacketSpace::", x[0])]
+    if len(ins) != 1 or len(rem) > 1 or other:
+        return "false"
+    # the counter is the number of tracked non-ack-eliciting packets above the last ack-eliciting one:
+    #   an ack-eliciting packet restarts it; a non-eliciting one adds 1; forgetting the oldest of them takes 1 away
+    want = ite(eliciting, bv(0), "(bvsub (bvadd %s (_ bv1 64)) %s)" % (tail0, bv(1) if rem else bv(0)))
+    return and_(eq(tail1, want), or_(not_(eliciting), eq(c.ex.read_key(st, F("largest_ack_eliciting_sent"), BV64).t, c.inp("_2", BV64))))
+
+
+Q(name="e2_packet_space_sent_tail_counter", props=["C03", "C12"], func=r"spaces\.rs:\d+:1: \d+:17>::sent$",
+  allowed_panics=r"unwrap_failed|attempt to compute", ignore_untranslatable=r"debug_assert|Transmute",
+  functions=["PacketSpace::sent"], pre=lambda c: ule(c.inp("*_1.%d" % c.field("connection/spaces.rs", "PacketSpace", "unacked_non_ack_eliciting_tail"), BV64), bv(1 << 32)), post=pss_post,
+  bounds="every packet (ack-eliciting or not) and every counter value: `unacked_non_ack_eliciting_tail` - the number of tracked packets nobody is obliged to acknowledge - is reset by an ack-eliciting packet, grows by one with a non-eliciting one, and stays the same when the oldest such packet is forgotten to make room (one out, one in), the forgetting being done on the packet map directly; SentPackets operations opaque",
+  replay=("space_sent_tail_native", lambda m: [dict(n=1500)]))
